@@ -7,7 +7,7 @@
 -/
 import Ctrmml.Model.MdsConv
 import Ctrmml.Spec.Timeline
-import Ctrmml.Proofs.CodecLoops
+import Ctrmml.Proofs.CodecBreak
 namespace Ctrmml.C02
 open Ctrmml Ctrmml.Mds Ctrmml.Seq Tables
 
@@ -114,16 +114,31 @@ theorem C02_codec_roundtrip_loops_nobreak_partial (nS nM : Nat) (ts : List Node)
   obtain ⟨bytes, h1, h2⟩ := codec_roundtrip_loops_nobreak nS nM ts hl hn farg
   exact ⟨bytes, h1, fun base mj maxTicks ln lr hlen => (h2 base mj ln lr).run_eq maxTicks hlen⟩
 
-/-- The statement for counted loops WITH break (`LP … LPB … LPF n`, nested): same as above without
-the `noBreakL` hypothesis, for streams shorter than 64 KiB. -/
-def C02_codec_roundtrip_loops_statement : Prop :=
-  ∀ (nS nM : Nat) (ts : List Node) (_ : linL ts = true) (farg : Nat),
-    ∃ bytes, convertTrack nS nM (flatL ts ++ [⟨mds_FINISH, farg⟩]) = .ok bytes ∧
-      (bytes.length < 65536 →
+/-- **convert_structured_eq.**  `convert_track` back-patches the loop-break instruction into the
+middle of the stream when it reaches the loop end.  On every bracket structure over the linear
+fragment it computes exactly what the structured two-pass encoder `Codec.encL` computes, which only
+ever appends (for a loop with a break: encode the part after the break once to measure it, emit
+`LPB o` / `LPBL oo`, encode it again) — provided the result is shorter than 64 KiB. -/
+theorem C02_convert_structured_eq (nS nM : Nat) (ts : List Node) (hl : linL ts = true) (e' : Enc)
+    (h : encL nS nM ts {} = .ok e') (hb : e'.out.length < 65536) :
+    convertTrack nS nM (flatL ts) = .ok e'.out :=
+  convert_structured_eq nS nM ts hl e' h hb
+
+/-- **Counted loops with and without break, nested to any depth** (leaves in the linear fragment,
+terminated by `FINISH`, stream shorter than 64 KiB).  The interpreter plays exactly the loop
+expansion `expL`: each body `passes n` times (`n mod 256`, once if that is `≤ 1`), the part after
+the break dropped on the last pass. -/
+theorem C02_codec_roundtrip_loops (nS nM : Nat) (ts : List Node) (hl : linL ts = true) (farg : Nat) :
+    ∃ e', encL nS nM ts {} = .ok e' ∧
+      (e'.out.length + 1 < 65536 →
+        convertTrack nS nM (flatL ts ++ [⟨mds_FINISH, farg⟩]) = .ok (e'.out ++ [mds_FINISH]) ∧
         ∀ (base mj maxTicks : Nat) (ln lr : Option Nat), (expL nS nM ts).length ≤ maxTicks →
           ∃ n, ∀ fuel, fuel > n →
-            run bytes base mj maxTicks fuel { pc := 0, lastNote := ln, lastRest := lr } =
-              (expL nS nM ts, .finished))
+            run (e'.out ++ [mds_FINISH]) base mj maxTicks fuel { pc := 0, lastNote := ln, lastRest := lr } =
+              (expL nS nM ts, .finished)) := by
+  obtain ⟨e', h1, h2⟩ := codec_roundtrip_loops nS nM ts hl farg
+  refine ⟨e', h1, fun hb => ⟨(h2 hb).1, fun base mj maxTicks ln lr hlen => ?_⟩⟩
+  exact ((h2 hb).2 base mj ln lr).run_eq maxTicks hlen
 
 /-! ### non-vacuity -/
 
@@ -152,5 +167,18 @@ example : linL exLoops = true ∧ noBreakL exLoops = true := by decide
 example : convertTrack 0 0 (flatL exLoops ++ [⟨mds_FINISH, 0⟩]) =
     .ok [0xa6, 0x17, 0xfa, 0xa6, 0x17, 0xfa, 0x0b, 0xfb, 2, 0xfb, 3, 0xff] := rfl
 example : (expL 0 0 exLoops).length = 24 + 3 * (24 + 2 * 12) := by decide +kernel
+
+/-- loops with breaks, nested: `c [ c c / r [ d / r ]2 ]3` -/
+def exBreak : List Node :=
+  [.ev ⟨0xa6, 24⟩, .loopB [.ev ⟨0xa6, 24⟩, .ev ⟨0xa6, 24⟩] [.ev ⟨mds_REST, 48⟩, .loopB [.ev ⟨0xa8, 12⟩] [.ev ⟨mds_REST, 12⟩] 2] 3]
+example : linL exBreak = true := by decide
+/-- the length-less third `c` is followed by the back-patched `fc 0b`, then the rest length `2f` -/
+example : (convertTrack 0 0 (flatL exBreak ++ [⟨mds_FINISH, 0⟩])).toOption =
+    some [0xa6, 0x17, 0xfa, 0xa6, 0x17, 0xa6, 0xfc, 0x0b, 0x2f, 0xfa, 0xa8, 0x0b, 0xfc, 0x03, 0x0b, 0xfb, 2, 0xfb, 3, 0xff] := by
+  decide +kernel
+example : ((encL 0 0 exBreak {}).map (·.out)).toOption =
+    some [0xa6, 0x17, 0xfa, 0xa6, 0x17, 0xa6, 0xfc, 0x0b, 0x2f, 0xfa, 0xa8, 0x0b, 0xfc, 0x03, 0x0b, 0xfb, 2, 0xfb, 3] := by
+  decide +kernel
+example : (expL 0 0 exBreak).length = 24 + 2 * (48 + 48 + (12 + 12 + 12)) + 48 := by decide +kernel
 
 end Ctrmml.C02
